@@ -173,15 +173,23 @@ def run(cx):
               "a kept revision must copy time_updated/time_verified from the old revision (otherwise retained "
               "results are re-executed or wrongly reused)", c.loc(r.line))
     q = fb.one(r"pico::garbage_collection::add_dependencies_to_queue$")
-    sws = [s for s in discr_switches(q) if s["adt"] == "pico::dependency::NodeKind"]
-    if len(sws) != 1:
-        raise AnchorError("add_dependencies_to_queue: expected one match on NodeKind")
-    sw = sws[0]
-    nxt = blocks_calling(q, r"Iterator>::next$|Iterator::next$")
-    push = blocks_calling(q, r"vec::Vec::<T, A>::push$")
-    p = path_without(q, sw["arms"]["Derived"], nxt + q.return_blocks(), push) if "Derived" in sw["arms"] else [0]
-    cx.ob("R03.trace", q.id + "|derived-deps-pushed", p is None,
-          "a Derived dependency is not pushed onto the GC queue", q.loc(), detail=fmt_path(q, p) if p else None)
+    fam = [(g_, s_) for g_ in fb.with_closures(q) for s_ in discr_switches(g_) if s_["adt"] == "pico::dependency::NodeKind"]
+    if len(fam) != 1:
+        raise AnchorError("add_dependencies_to_queue: expected one match on NodeKind (in the function or a closure of it)")
+    qb, sw = fam[0]
+    if qb is q:
+        nxt = blocks_calling(q, r"Iterator>::next$|Iterator::next$")
+        push = blocks_calling(q, r"vec::Vec::<T, A>::push$")
+        p = path_without(q, sw["arms"]["Derived"], nxt + q.return_blocks(), push) if "Derived" in sw["arms"] else [0]
+        ok_push = p is None
+    else:
+        # iterator form: queue.extend(deps.filter_map(|dep| match dep.node_to { Derived(id) => Some(id) (if new), .. }))
+        some = [b_.i for b_ in qb.blocks for st_ in b_.stmts if st_.rv == "aggregate" and st_.j.get("variant") == "Some"]
+        reach = reachable_from(qb, sw["arms"]["Derived"]) if "Derived" in sw["arms"] else set()
+        ok_push = any(b_ in reach for b_ in some) and bool(blocks_calling(q, r"Extend<.*>>?::extend$|vec::Vec::<T, A>::push$|Vec::<T, A>::extend"))
+        p = None if ok_push else [sw["arms"].get("Derived", 0)]
+    cx.ob("R03.trace", q.id + "|derived-deps-pushed", ok_push,
+          "a Derived dependency is not pushed onto the GC queue", q.loc(), detail=fmt_path(qb, p) if p else None)
     fields = ["params", "derived_nodes", "param_id_to_index", "derived_node_id_to_revision",
               "derived_node_dependencies"]
     found = 0
